@@ -39,6 +39,32 @@ Theorem C08_execute_conditions :
 Proof. exact execute_conditions. Qed.
 Print Assumptions C08_execute_conditions.
 
+(* Post-conditions of the successful calls, from ANY state: a successful execute
+   (execute_operation or set_execute_operation) leaves the id Done; a successful cancel needs a
+   pending id and leaves it Unset; a successful schedule needs an Unset id and delay >= the minimum
+   delay, returns the id of the descriptor and stores min(now + delay, u32::MAX). *)
+Theorem C08_execute_marks_done :
+  forall (hash : op -> id) s c o,
+    executes c = Some o -> is_ok (snd (step hash s c)) = true ->
+    state_of (tls (fst (step hash s c))) (hash o) = Done.
+Proof. exact execute_marks_done. Qed.
+Print Assumptions C08_execute_marks_done.
+Theorem C08_cancel_clears :
+  forall (hash : op -> id) s i,
+    is_ok (snd (step hash s (Cancel i))) = true ->
+    (state_of (tls s) i = Waiting \/ state_of (tls s) i = Ready) /\
+    state_of (tls (fst (step hash s (Cancel i)))) i = Unset.
+Proof. exact cancel_clears. Qed.
+Print Assumptions C08_cancel_clears.
+Theorem C08_schedule_stores_ready_ledger :
+  forall (hash : op -> id) s o d,
+    0 <= now (tls s) -> is_ok (snd (step hash s (Schedule o d))) = true ->
+    state_of (tls s) (hash o) = Unset /\ (exists m, min_delay (tls s) = Some m /\ m <= d) /\
+    snd (step hash s (Schedule o d)) = Ok (Some (hash o)) /\
+    mark (tls (fst (step hash s (Schedule o d)))) (hash o) = Z.min (now (tls s) + d) MAXU32.
+Proof. exact schedule_stores_ready_ledger. Qed.
+Print Assumptions C08_schedule_stores_ready_ledger.
+
 (* Done is forever: from ANY state in which id [i] is Done, after any call sequence it is
    still Done and every schedule / execute / cancel naming it has failed. *)
 Theorem C08_done_forever :
@@ -121,10 +147,11 @@ Print Assumptions C08_time_changes_nothing_stored.
 (* The monitor run on the implementation's traces (Run/C08.v: the property over observed
    calls, outcomes and getter values only) accepts every run of the model, and the model's
    diff with itself is empty - for every start ledger >= 2, universe of ids and tags, and
-   every measured id table that is a function and injective. *)
+   every measured id table that is a function and injective and whose ids, predecessors and
+   argument tags are all observed ([tbl_in]; [check] verifies both on every trace). *)
 Theorem C08_monitor_accepts_model :
   forall n0 ids tags tbl cs,
-    2 <= n0 <= MAXU32 -> tbl_ok tbl = true ->
+    2 <= n0 <= MAXU32 -> tbl_ok tbl = true -> tbl_in ids tags tbl = true ->
     check (model_trace n0 ids tags tbl cs) = (0%N, 0%N, 0%N).
 Proof. exact check_accepts_model. Qed.
 Print Assumptions C08_monitor_accepts_model.
@@ -139,6 +166,12 @@ Example C08_execute_reachable :
          Execute a true; Advance 2; Execute b true; Cancel (hash_pair b); Schedule a 9])
   = [true; true; true; true; false; true; true; false; true; true; false; false].
 Proof. vm_compute. reflexivity. Qed.
+(* a reachable Done state at ledger >= 2, by the reported state *)
+Example C08_done_reachable :
+  let a := Op 1 0 1 0 0 in
+  let s := run hash_pair (init 10) [SetMinDelay 5; Schedule a 5; Advance 5; Execute a true] in
+  state_of (tls s) (hash_pair a) = Done /\ mark (tls s) (hash_pair a) = 1 /\ now (tls s) = 15.
+Proof. vm_compute. repeat split. Qed.
 (* why ledgers 0 and 1 are excluded: at ledger 1 a delay-0 schedule stores the DONE sentinel *)
 Example C08_sentinel_ledgers_excluded :
   let a := Op 1 0 1 0 0 in
